@@ -2,7 +2,6 @@ from __future__ import annotations
 
 import itertools
 from collections.abc import Iterable, Iterator, Mapping, MutableMapping
-from functools import cached_property
 from typing import Any, Optional
 
 
@@ -90,8 +89,6 @@ class LayeredMapping(MutableMapping):
                 [*layers, *self._layers] if prepend else [*self._layers, *layers]
             )
             self.name = name
-            if "named_layers" in self.__dict__:
-                del self.named_layers
             return self
 
         new_layers = [*layers, self] if prepend else [self, *layers]
@@ -99,7 +96,7 @@ class LayeredMapping(MutableMapping):
 
     # Named layer lookups and caching
 
-    @cached_property
+    @property
     def named_layers(self) -> dict[str, LayeredMapping]:
         """
         A mapping from string names to named `LayeredMapping` instances. If no
